@@ -40,6 +40,20 @@ def non_panic_leaves(t):
     return [x for x in sym._leaves(t, []) if not (isinstance(x, tuple) and x and x[0] in ("panic", "unreachable"))]
 
 
+def decoder(chk, prog):
+    """the status decoder hands back exactly what deserializing the 60-halfword struct gives: nothing is rejected, nothing
+    is rewritten after decoding"""
+    p = "nexrad_decode::messages::rda_status_data::decode_rda_status_message"
+    ev = sym.Evaluator(prog, opaque_local=["nexrad_decode::util::deserialize"])
+    t, fn = eval_or_blind(chk, ev, "R-WIRE", p, [P("reader")])
+    if t is None:
+        return
+    d = ("call", "nexrad_decode::util::deserialize::<%s>" % MSG, (P("reader"),))
+    okk = t == d or sym.sem_eq(t, d) or sym.sem_eq(t, sym.res_match(d, lambda x: ok(x), lambda e: err(e)))
+    chk.ob("R-WIRE", p, okk, "the decoder returns deserialize::<Message>(reader) itself" if okk else
+           "the decoder does not return the deserialized message as it is: %s" % show(t)[:240], fn.where(), key="decoder-identity")
+
+
 def run(chk, tier):
     prog, info = common.program("all")
     common.note_extraction(chk, info, prog)
@@ -51,6 +65,7 @@ def run(chk, tier):
     chk.trust("serde_derive/bincode encoding; iterator adaptors filter/filter_map/collect preserve order")
     chk.assume("'documented' codes and bits are those of the table frozen from the pinned tree (DESIGN §3 C12 oracle note: four doc/code disagreements are observations, not findings)")
     layout.check_struct(chk, prog, MSG)
+    decoder(chk, prog)
     ev = sym.Evaluator(prog)
 
     # ---- coded accessors at their documented codes
